@@ -14,6 +14,7 @@ import (
 type replayIn struct {
 	History []string `json:"history"`
 	Index   int      `json:"index"`
+	Ops     []string `json:"ops"`
 	Kind    string   `json:"kind"`
 	Note    string   `json:"note"`
 	Via     string   `json:"via"`
@@ -59,6 +60,10 @@ func runReplay(path, out string, c *collector, m *meta) {
 		m.Kinds = append(m.Kinds, writeKind(out, "rcases", "rcase", "rcase_model_ok", "rcase_verdict", c.coq, c.js, 400, ""))
 	case "conn-history":
 		runConnHistory(out, m, 64)
+	case "ops":
+		c, _ := runOps(in, rp.Cuts, rp.Ops)
+		m.Kinds = append(m.Kinds, writeKind(out, "ocases", "ocase", "ocase_model_ok", "ocase_verdict", []string{c},
+			[]any{ocaseJSON{"ops", rp.In, rp.Cuts, rp.Ops, "replay"}}, 200, ""))
 	case "conn-limiter":
 		runLimiterScenario(out, m)
 	case "v2":
